@@ -60,7 +60,7 @@ def knownWriteKeys : List String :=
 
 def parseWriteReq? (kv : KV) : Option (WriteReq Msg Mask) := do
   if !(kv.all (fun p => knownWriteKeys.contains p.1)) then none
-  let wt ← optKey kv "wt" parseNat?
+  let wt ← optKey kv "wt" parseInt?
   let um ← optKey kv "um" parseMask?
   let rs ← optKey kv "rs" parseMask?
   let ev ← optKey kv "ev" parseMsg?
@@ -94,7 +94,7 @@ def parseCfg? (kv : KV) : Option FCfg := do
   let w ← optKey kv "W" parseMask?
   let ic ← optKey kv "icpt" namedIcpt
   let tick ← optKey kv "tick" parseNat?
-  pure { ops := flatOps, writable := w, icpt := ic, tick := tick.getD 1, gen := flatGen }
+  pure { ops := flatOps, writable := w, icpt := ic, tick := ((tick.getD 1 : Nat) : Int), gen := flatGen }
 
 /-! ### printing -/
 
